@@ -29,7 +29,7 @@ ASSUMPTIONS = ["nvmon.ref exact reference for vertex positions (uv within 1e-12 
 FLOORS = {'quick': {'topology': 150, 'vertex-on-surface': 1500, 'quads': 100, 'trim-cells': 1000, 'obj': 60, 'off': 60, 'stl-ascii': 60,
                     'stl-binary': 60, 'container': 30},
           'thorough': {'topology': 1500, 'vertex-on-surface': 15000, 'trim-cells': 10000}}
-MANDATORY_TAGS = ['export:spacing-after-tessellation', 'mesh:kept-across-edit', 'partial-evaluate-before', 'spacing1', 'spacing>=2', 'spacing>=3', 'spacing:not-dividing', 'rational', 'trim:freeform', 'trim:spline', 'trim:reversed', 'trim:clockwise', 'trim:non-unit-domain', 'trim:added-after-tessellation', 'trim:setter-replaces', 'tessellator:reinstalled-after-edit', 'container', 'container:tessellator-replaced', 'quad:as-surface-tessellator', 'export:quad-mesh',
+MANDATORY_TAGS = ['far-from-origin', 'export:spacing-after-tessellation', 'mesh:kept-across-edit', 'partial-evaluate-before', 'spacing1', 'spacing>=2', 'spacing>=3', 'spacing:not-dividing', 'rational', 'trim:freeform', 'trim:spline', 'trim:reversed', 'trim:clockwise', 'trim:non-unit-domain', 'trim:added-after-tessellation', 'trim:setter-replaces', 'tessellator:reinstalled-after-edit', 'container', 'container:tessellator-replaced', 'quad:as-surface-tessellator', 'export:quad-mesh',
                   'quad', 'non-unit-domain', 'export:file']
 TECHNIQUE = ("runtime monitoring: structural + exact-geometric oracle over every tessellation the workload produces (ids, indices, "
              "orientation, exact area cover, edge incidence, Euler characteristic, vertex = surface(uv)), cell-classification oracle "
@@ -63,6 +63,11 @@ def gen(rng, tier, shard, nshards):
                 nu, nv = rng.randint(2, mx), rng.randint(2, mx)
             if nu != nv or mx < 4:
                 break
+        if i % 6 == 5:
+            # a model far from the origin (UTM metres): the mesh and what the exporters derive from it (facet normals) do not care
+            off_ = [rng.choice([-1, 1]) * rng.uniform(3e5, 4e6) for _ in range(3)]
+            sd['ctrlpts'] = [[c + o_ for c, o_ in zip(p_, off_)] for p_ in sd['ctrlpts']]
+            sd['far'] = True
         yield {'kind': 'plain', 'sd': sd, 'nu': nu, 'nv': nv, 'spacing': sp, 'seed': rng.randrange(1 << 30)}
         if i % 3 == 0:
             nonunit = rng.random() < 0.35
@@ -204,13 +209,15 @@ def parse_stl_binary(b):
 
 def normal_ok(fc, rel, verts=None):
     v = verts if verts is not None else fc['v']     # binary STL stores float32: judge the normal against the mesh's own positions
-    a = [q - p for p, q in zip(v[0], v[1])]
-    b = [q - p for p, q in zip(v[1], v[2])]
-    n = [a[1] * b[2] - a[2] * b[1], a[2] * b[0] - a[0] * b[2], a[0] * b[1] - a[1] * b[0]]
+    # exact edge vectors and cross product (a facet far from the origin - coordinates of 1e6 - is as good a facet as one at the origin)
+    a = [F(q) - F(p) for p, q in zip(v[0], v[1])]
+    b = [F(q) - F(p) for p, q in zip(v[1], v[2])]
+    n = [float(a[1] * b[2] - a[2] * b[1]), float(a[2] * b[0] - a[0] * b[2]), float(a[0] * b[1] - a[1] * b[0])]
     mn = math.sqrt(sum(x * x for x in n))
     mg = math.sqrt(sum(x * x for x in fc['n']))
-    if mn <= 1e-9 * max(1.0, max(abs(c) for p in v for c in p)) ** 2:
-        return True  # degenerate facet in space: direction undefined
+    la, lb = math.sqrt(float(sum(x * x for x in a))), math.sqrt(float(sum(x * x for x in b)))
+    if mn <= 1e-7 * la * lb or mn <= 1e-300:
+        return True  # degenerate facet in space (its edges are parallel): direction undefined
     if mg == 0:
         return False
     cosang = sum(x * y for x, y in zip(n, fc['n'])) / (mn * mg)
@@ -319,6 +326,8 @@ def check_plain(case, ctx):
     dom = G.domains_of(o)
     nonunit = bool(case.get('nonunit'))
     ctx.tag('spacing1' if sp == 1 else 'spacing>=2', 'rational' if sd['rational'] else 'nonrational')
+    if sd.get('far'):
+        ctx.tag('far-from-origin')
     if sp >= 3:
         ctx.tag('spacing>=3')
     if nonunit:
